@@ -180,7 +180,6 @@ def handleZone (toks : List String) : Option String :=
   | ["enc.map", p, m] => do
       let p ← parsePool? p; let m ← parseMap? m; some (withPool (do let m ← mkMap m; writeAlternatingMap p m))
   | ["dec.map", p, h] => do let p ← parsePool? p; let b ← parseHex? h; some (withRest showMap (readAlternatingMap p b))
-  | ["enc.zone", p, z] => do let p ← parsePool? p; let z ← parsePrecalc? z; some (withPool (writePrecalculated p z))
   | ["dec.zone", p, id, h] => do
       let p ← parsePool? p; let id ← parseHex? id; let b ← parseHex? h
       some (withRest (fun z => showZone (.precalculated z)) (readPrecalculatedData p id b))
@@ -209,12 +208,22 @@ def mkRecurrence (z : ZoneRecurrence) : R ZoneRecurrence := do
   let _ ← Offset.fromSeconds z.savings.seconds
   recurrenceCtor { z with yearOffset := y }
 
+/-- `_PrecalculatedDateTimeZone(id, [ZoneInterval(...)…], tail)` from protocol fields: every constructor runs -/
+def mkZone (z : PrecalculatedZone) : R PrecalculatedZone := do
+  let ps ← z.periods.mapM (fun p => zoneIntervalCtor p.name p.rawStart p.rawEnd p.wall p.savings)
+  let tz ← match z.tailZone with
+    | none => pure none
+    | some m => do let m ← mkMap m; pure (some m)
+  precalculatedCtor ⟨z.id, ps, tz⟩
+
 def showLocal (l : LocalInstant) : String := s!"{l.dur.days}:{l.dur.nod}"
 
 def handleTail (toks : List String) : Option String :=
   match toks with
   | ["enc.rec", p, z] => do
       let p ← parsePool? p; let z ← parseRec? z; some (withPool (do let z ← mkRecurrence z; writeRecurrence p z))
+  | ["enc.zone", p, z] => do
+      let p ← parsePool? p; let z ← parsePrecalc? z; some (withPool (do let z ← mkZone z; writePrecalculated p z))
   | ["dec.rec", p, h] => do let p ← parsePool? p; let b ← parseHex? h; some (withRest showRec (readRecurrence p b))
   | ["tail.occ", y, year] => do
       let y ← parseYO? y; let year ← parseInt? year
@@ -335,7 +344,7 @@ def handleStream (toks : List String) : Option String :=
       some (" ".intercalate l)
   | "stream.faultsfull" :: h :: faults => do
       let b ← parseHex? h
-      let l ← faults.mapM (fun f => (applyFault b f).map (fun x => showUse (loadAndUse x) ++ "/" ++ showUse (loadAndUseRaw x)))
+      let l ← faults.mapM (fun f => (applyFault b f).map (fun x => showUse (loadAndUse x)))
       some (" ".intercalate l)
   | "zone.create" :: pf :: fields => do
       let pool ← parsePoolField? pf
